@@ -41,6 +41,8 @@ SYNTAX = {
     'directives2': "@@whitespace :: None\n@@nameguard :: True\n\na: 'x' ;\n",
     'constants': "a: `1` `'s'` `x{y}` ```multi\nline``` ^`alert` ^^^`three` `True` ;\n",
     'meta': "a: @int @uint @float @bool @name ;\n",
+    'meta-call': "a: @int b @name b @bool ;\n\nb: 'x' ;\n",
+    'meta-call': "a: @int b @name b @bool ;\n\nb: 'x' ;\n",
     'comments': "(* pascal *)\n/* c style */\n# eol\n// eol2\na: 'x' (* inner *) 'y' # trailing\n ;\n",
     'choices': "a:\n  | 'x'\n  | 'y' 'z'\n  | ()\n;\n",
     'choices-leading-bar': "b: | 'x' | 'y' ;\n",
@@ -48,6 +50,19 @@ SYNTAX = {
     'numbers-hex': "a[0x1F]: 'x' ;\n",
     'params-path': "a::T: 'x' ;\n\nb[A::B]: 'y' ;\n",
 }
+# element spellings written next to each other without blanks: where one lexeme ends and the next begins is decided
+# by guards and word boundaries inside single rules of the grammar — the place where a stale reader drifts
+ELEMENTS = ["'x'", '"x"', '/x/', 'b', 'b2', '(b)', '[b]', '{b}', 'n:', 'n=', 'n+:', 'n+=', '@:', '@+:', '=', '+=', '+', '*', '?', '-', '~', '$', '&', '!',
+            '@int', '@name', '@bool', '`1`', '()', '>b', '->', '>>', '%', '.', '|', '^`x`', ',', 'r', "r'x'", '?', "?'x'", '1', ':', '::', '<', '@']
+
+
+def juxtapositions(k):
+    import itertools
+    for n in range(1, k + 1):
+        for t in itertools.product(ELEMENTS, repeat=n):
+            yield "a: " + ''.join(t) + " ;\n\nb: 'y' ;\n\nb2: 'z' ;\n"
+
+
 INVALID = {
     'unclosed': "a: ('x' ;\n",
     'bad-regex': "a: /(/ ;\n",
@@ -104,9 +119,10 @@ def readers():
     def p1(text, sem):
         return P1cls(config=ParserConfig.new(name='G', semantics=sem)).parse(text)
 
+    p2model = Grammar(name=GRAMMAR_MODEL.name, rules=GRAMMAR_MODEL.rules, directives=GRAMMAR_MODEL.directives, keywords=GRAMMAR_MODEL.keywords)
+
     def p2(text, sem):
-        m = Grammar(name=GRAMMAR_MODEL.name, rules=GRAMMAR_MODEL.rules, directives=GRAMMAR_MODEL.directives, keywords=GRAMMAR_MODEL.keywords)
-        return m.parse(text, semantics=sem, name='G')
+        return p2model.parse(text, semantics=sem, name='G')
 
     def p3(text, sem):
         return p3model.parse(text, semantics=sem, name='G')
@@ -231,13 +247,22 @@ def run(rc):
     for s in seeds:
         if len(s) <= (90 if quick else 400):
             ed += [('edit', e) for e in c08.edits(s)]
+    # deletions and swaps (the edits that push two lexemes together) for every short spelling seed, in both tiers
+    for s in SYNTAX.values():
+        if len(s) <= 110:
+            ed += [('edit', s[:i] + s[i + 1:]) for i in range(len(s))]
+            ed += [('edit', s[:i] + s[i + 1] + s[i] + s[i + 2:]) for i in range(len(s) - 1)]
     ed = list(dict.fromkeys(ed))
     rc.pmap(shard, ed)
     rc.coverage['edits'] = len(ed)
+    jx = [('juxtaposition', t) for t in juxtapositions(2 if quick else 3)]
+    rc.pmap(shard, jx)
+    rc.coverage['juxtapositions'] = len(jx)
     c = rc.total.counts
     rc.rule = (f'{len(corpus)} grammar texts (every definition/terminator/parameter/string/pattern/postfix/join/name/group/decorator/directive/constant/'
                'comment spelling, the feature grammars of C13, invalid texts, the TatSu grammar itself) with measured rule coverage of _tatsu.ebnf, plus the complete '
-               f'single-edit neighbourhood ({len(ed)} texts) of the short seeds; each read by the shipped generated parser, the shipped grammar model, the model '
+               f'single-edit neighbourhood ({len(ed)} texts) of the short seeds, and every sequence of <= {2 if quick else 3} of {len(ELEMENTS)} element spellings '
+               f'written without blanks in a rule body ({len(jx)} texts); each read by the shipped generated parser, the shipped grammar model, the model '
                'compiled now from _tatsu.ebnf and the parser regenerated now from it; non-trivial = text accepted by some reader')
     rc.coverage.update({'states': c.get('states', 0), 'transitions': c.get('transitions', 0),
                         'traces_validated_against_impl': c.get('evaluations', 0), 'programs': 4})
